@@ -123,6 +123,12 @@ def qoi_fn(cfg):
     return Q
 
 
+def library_initial_state(cfg, pvec):
+    """The virgin state as the library itself defines it (MaterialModel.compute_initial_state)."""
+    m = make_model(cfg, [float(x) for x in pvec])
+    return onp.asarray(m.compute_initial_state(), dtype=float).ravel()
+
+
 def initial_state(cfg):
     if cfg.state == 'none':
         return onp.zeros(0)
